@@ -968,18 +968,103 @@ func (in *instr) walk(n ast.Node, fn string) {
 			in.stmts(t.Body, fn)
 			return false
 		case *ast.GoStmt:
-			// go f(x)  ->  simrt.Go(func() { f(x) })
-			// Argument evaluation moves into the new task; the spawn point is a
-			// scheduling point, so for race-free code this is one more
-			// interleaving, not a different semantics.
 			goStmts++
-			in.replace(t.Go, 2, "simrt.Go(func() {")
-			in.insert(t.End(), " })")
+			if !in.goEager(t) {
+				// no type information: go f(x) -> simrt.Go(func() { f(x) }); the
+				// function value and the arguments are then evaluated by the new
+				// task instead of at the go statement (a difference only for code
+				// that reassigns them afterwards)
+				in.replace(t.Go, 2, "simrt.Go(func() {")
+				in.insert(t.End(), " })")
+			}
 			in.walk(t.Call, fn)
 			return false
 		}
 		return true
 	})
+}
+
+// goEager rewrites `go FUN(ARGS)` into
+//
+//	func(fn__ SIG, p0__ T0, …) { simrt.Go(func() { fn__(p0__, …) }) }(FUN, ARGS)
+//
+// so that, exactly as the language specifies for a go statement, the function
+// value and the arguments are evaluated where the statement stands and only the
+// call itself happens in the new task. FUN and ARGS stay where they are in the
+// source (nested function literals keep their own edits); the types come from
+// the type checker. It reports false when that is not possible (no type
+// information, a built-in, a type from a package this file does not import).
+func (in *instr) goEager(g *ast.GoStmt) bool {
+	info := typeInfo[in.astFile]
+	pkg := typePkg[in.astFile]
+	if info == nil || pkg == nil {
+		return false
+	}
+	tv, ok := info.Types[g.Call.Fun]
+	if !ok || tv.Type == nil || tv.IsBuiltin() || tv.IsType() {
+		return false
+	}
+	sig, ok := tv.Type.Underlying().(*types.Signature)
+	if !ok {
+		return false
+	}
+	names := map[string]string{}
+	for _, im := range in.astFile.Imports {
+		path, _ := strconv.Unquote(im.Path.Value)
+		if im.Name != nil {
+			names[path] = im.Name.Name
+		} else {
+			names[path] = ""
+		}
+	}
+	bad := false
+	qual := func(p *types.Package) string {
+		if p == pkg {
+			return ""
+		}
+		n, ok := names[p.Path()]
+		if !ok || n == "_" || n == "." {
+			bad = true
+			return p.Name()
+		}
+		if n == "" {
+			return p.Name()
+		}
+		return n
+	}
+	var decl, use []string
+	decl = append(decl, "fn__ "+types.TypeString(sig, qual))
+	np := sig.Params().Len()
+	for i := 0; i < np; i++ {
+		pt := sig.Params().At(i).Type()
+		name := fmt.Sprintf("p%d__", i)
+		switch {
+		case sig.Variadic() && i == np-1:
+			// also right for f(xs...): a slice passed with ... to a variadic
+			// parameter is passed on as it is
+			decl = append(decl, name+" ..."+types.TypeString(pt.(*types.Slice).Elem(), qual))
+			use = append(use, name+"...")
+		default:
+			decl = append(decl, name+" "+types.TypeString(pt, qual))
+			use = append(use, name)
+		}
+	}
+	if bad {
+		return false
+	}
+	if !sig.Variadic() && len(g.Call.Args) != np {
+		return false // f(g()) with a multi-value g
+	}
+	wrapper := "func(" + strings.Join(decl, ", ") + ") { simrt.Go(func() { fn__(" + strings.Join(use, ", ") + ") }) }("
+	in.replace(g.Go, 2, wrapper)
+	// "go" is followed by white space and FUN; the call's "(" becomes ", " (or
+	// nothing when there is no argument)
+	sep := ", "
+	if len(g.Call.Args) == 0 {
+		sep = ""
+	}
+	in.replace(g.Call.Lparen, 1, sep)
+	return true
 }
 
 func instrumentFile(p *pkgInfo, name string, f *ast.File, full bool) string {
